@@ -36,25 +36,25 @@ def owner_of(clause: str, detail=None) -> str:
 
 
 MODEL = {
-    # property -> (quick configs, extra thorough configs)
+    # property -> (quick configs, extra thorough configs).  goon*: a caller that goes on after a refusal; extkill*: Container.kill from outside
     "C01": (["diamond", "join_single"], ["chain", "fork_oc", "two_long", "batch", "cross"]),
-    "C02": (["chain", "join_single"], ["diamond", "fork_oc", "two_long", "batch", "cross"]),
-    "C03": (["two_long", "batch"], ["chain", "fork_oc", "diamond", "join_single", "cross", "deep"]),
-    "C04": (["fork_oc", "press"], ["chain", "two_long", "diamond", "batch"]),
+    "C02": (["chain", "join_single", "goon_s"], ["diamond", "fork_oc", "two_long", "batch", "cross", "extkill1"]),
+    "C03": (["two_long", "batch", "goon"], ["chain", "fork_oc", "diamond", "join_single", "cross", "deep", "extkill1"]),
+    "C04": (["fork_oc", "press", "goon_oc"], ["chain", "two_long", "diamond", "batch", "extkill1"]),
     "C05": (["join_single", "diamond"], ["chain", "fork_oc", "cross"]),
-    "C09": (["fork_oc", "join_single"], ["chain", "two_long", "diamond", "batch", "cross", "deep5"]),
-    "C10": (["two_long", "chain"], ["fork_oc", "diamond", "batch", "cross", "deep5"]),
-    "C11": (["press", "fork_oc"], ["chain", "two_long"]),
+    "C09": (["fork_oc", "join_single", "goon", "extkill1"], ["chain", "two_long", "diamond", "batch", "cross", "deep5", "extkill", "goon_s"]),
+    "C10": (["two_long", "chain", "goon"], ["fork_oc", "diamond", "batch", "cross", "deep5", "extkill"]),
+    "C11": (["press", "fork_oc", "goon_oc"], ["chain", "two_long"]),
 }
 MIX = {
     "C01": (("valid", 0.25), ("mixed", 0.4), ("susp", 0.15), ("orphan", 0.2)),
-    "C02": (("valid", 0.3), ("mixed", 0.4), ("susp", 0.2), ("orphan", 0.1)),
-    "C03": (("valid", 0.3), ("mixed", 0.3), ("pressure", 0.1), ("susp", 0.3)),
-    "C04": (("valid", 0.25), ("mixed", 0.1), ("pressure", 0.35), ("susp", 0.2), ("swarm", 0.1)),
+    "C02": (("valid", 0.3), ("mixed", 0.3), ("susp", 0.2), ("orphan", 0.1), ("reject", 0.1)),
+    "C03": (("valid", 0.3), ("mixed", 0.2), ("pressure", 0.1), ("susp", 0.25), ("reject", 0.15)),
+    "C04": (("valid", 0.2), ("mixed", 0.1), ("pressure", 0.3), ("susp", 0.15), ("swarm", 0.1), ("reject", 0.15)),
     "C05": (("valid", 0.6), ("susp", 0.3), ("pressure", 0.1)),
-    "C09": (("valid", 0.3), ("mixed", 0.4), ("pressure", 0.15), ("susp", 0.15)),
-    "C10": (("valid", 0.2), ("mixed", 0.3), ("susp", 0.5)),
-    "C11": (("pressure", 0.7), ("susp", 0.1), ("swarm", 0.2)),
+    "C09": (("valid", 0.3), ("mixed", 0.3), ("pressure", 0.15), ("susp", 0.1), ("reject", 0.15)),
+    "C10": (("valid", 0.2), ("mixed", 0.2), ("susp", 0.45), ("reject", 0.15)),
+    "C11": (("pressure", 0.6), ("susp", 0.1), ("swarm", 0.2), ("reject", 0.1)),
 }
 NTRACES = {"quick": 900, "thorough": 20000}
 SEED_OFFSET = {p: i * 7919 for i, p in enumerate(sorted(MIX))}
@@ -62,12 +62,12 @@ SEED_OFFSET = {p: i * 7919 for i, p in enumerate(sorted(MIX))}
 # situations a property is about: (counter, minimum in the quick tier)
 NEEDS = {
     "C01": [("rejections", 20), ("multiop_assignments", 100)],
-    "C02": [("rejections", 20), ("failures", 100), ("suspends", 30)],
-    "C03": [("suspensions_finished", 30), ("rejections", 20), ("results", 300)],
-    "C04": [("poolkill_ticks", 50), ("own_kills", 100), ("suspends", 20)],
+    "C02": [("rejections", 20), ("failures", 100), ("suspends", 30), ("went_on_after_refusal", 40)],
+    "C03": [("suspensions_finished", 30), ("rejections", 20), ("results", 300), ("went_on_after_refusal", 40)],
+    "C04": [("poolkill_ticks", 50), ("own_kills", 100), ("suspends", 20), ("went_on_after_refusal", 40)],
     "C05": [("results", 300), ("own_kills", 50)],
-    "C09": [("results", 300), ("failures", 100), ("suspensions_finished", 10), ("rejections", 20)],
-    "C10": [("suspends", 100), ("suspends_1tick", 10), ("suspensions_finished", 80), ("rejections", 10)],
+    "C09": [("results", 300), ("failures", 100), ("suspensions_finished", 10), ("rejections", 20), ("went_on_after_refusal", 40)],
+    "C10": [("suspends", 100), ("suspends_1tick", 10), ("suspensions_finished", 80), ("rejections", 10), ("went_on_after_refusal", 40)],
     "C11": [("poolkill_ticks", 200), ("poolkill_multi", 100), ("poolkill_partial", 100)],
 }
 
@@ -128,6 +128,10 @@ def validate(traces, rep: Report, prop: str, *, nshards=None):
                 "C09.ResultShape": {"C05"},
                 # SUSPENDING -> PENDING belongs to the end of the suspension only (lifecycle), and until then the container is live
                 "C10.NoEarlyRelease": {"C02"}}.get(clause, set())
+        if clause.startswith("conf.raise") and isinstance(detail, list) and isinstance(detail[-1], dict) and detail[-1].get("sus"):
+            # the refused batch carried a Suspend that the specification accepts ("a container can be suspended ... right after one of its
+            # operators finished while another remains"): whatever the exception complained about, C10 is concerned too
+            also = also | {"C10"}
         if own != prop and prop not in also:
             continue
         tr = by_tid.get(tid, [])
@@ -158,6 +162,15 @@ def run(prop: str, tier: str, extra=None) -> int:
         # long simulations (13 000 ticks, write-outs in progress most of the time) through the real priority policy, observed sparsely:
         # tick-count-dependent behaviour of the pools only shows in runs of this length
         traces += long_runs(4 if tier == "quick" else 48, common.seed() + SEED_OFFSET[prop])
+    if prop == "C02":
+        # whole simulations (every shipped policy, scripted DAG workloads whose pipeline objects the caller keeps): the operator states
+        # during the run and as the caller finds them after run_simulator has returned
+        from . import driver_sched
+        sim = driver_sched.gen_traces(96 if tier == "quick" else 2400, common.seed() + 202, flavours=(("mixed", 0.6), ("tiny", 0.2), ("branchy", 0.2)))
+        for tr in sim:
+            for e in tr:
+                e["tid"] += 2 * 10**7
+        traces += sim
     mon, owners = validate(traces, rep, prop)
     rep.traces += mon.traces
     rep.evaluations += mon.lines
